@@ -91,6 +91,8 @@ def oracle_stmt(orc, key, fr):
         if h.chance(orc.get('nonjson', 2)):
             return {'s': 'return', 'nonjson': True}
         return {'s': 'return'}
+    if orc.get('p_probe') and h.chance(orc['p_probe']):
+        return {'s': 'probe', 'paths': [h.pick(orc['qpaths']) for _ in range(3)]}
     r = h.below(100)
     if r < orc.get('w_q', 50):
         return rand_query(h, orc)
@@ -156,46 +158,124 @@ def rand_ext(rnd, orc, cache):
     return {'op': 'ext', 'do': 'delete', 'p': cache}
 
 
+FOREIGN = [['fz'], ['d', 'fz'], ['d', 'e', 'fz'], ['g', 'fz']]
+LONGT = [['LONG', 'x'], ['d', 'LONG', 'y'], ['g', 'h', 'LONG', 'w']]
+
+PROFILES = {
+    # name: parameters (see make_scenario)
+    'general': {},
+    'crash': {'p_crash': 0.6, 'builds': [2, 3, 3], 'p_uncaught': 0.5, 'p_clean': 0.05},
+    'foreign': {'foreign': True, 'p_crash': 0.3, 'p_clean': 0.3, 'ext': [1, 2, 3, 4]},
+    'probe': {'p_probe': 0.5, 'p_crash': 0.05, 'raise': 25},
+    'rebuild': {'p_same_root': 1.0, 'p_crash': 0.0, 'ext': [0, 0, 0, 1], 'builds': [3, 4], 'p_clean': 0.0,
+                'p_vers': 0.0},
+    'versions': {'p_same_root': 0.9, 'p_crash': 0.0, 'ext': [0, 0, 0, 1], 'builds': [3, 4], 'p_clean': 0.0,
+                 'p_vers': 0.8, 'maxstmts': [3, 4, 5]},
+    'bfcontract': {'long': True, 'p_probe': 0.4, 'raise': 30, 'nocreate': 25, 'nonjson': 10,
+                   'p_crash': 0.1},
+    'clean': {'p_clean': 0.6, 'p_double_clean': 0.5, 'p_crash': 0.15, 'foreign': True},
+    'cmp': {'p_same_root': 0.9, 'ext_meta': True, 'ext': [1, 1, 2], 'p_crash': 0.0, 'p_clean': 0.0,
+            'w_read': True, 'builds': [3, 4]},
+}
+
+VERSION_TERMS = [
+    {'k': 'int', 'n': '1'}, {'k': 'float', 'n': '1', 'r': '1.0'}, {'k': 'int', 'n': '2'},
+    {'k': 'bool', 'b': True}, {'k': 'none'}, {'k': 'str', 's': '1'},
+    {'k': 'dict', 'kv': [[{'k': 'str', 's': 'a'}, {'k': 'int', 'n': '1'}], [{'k': 'str', 's': 'b'}, {'k': 'int', 'n': '2'}]]},
+    {'k': 'dict', 'kv': [[{'k': 'str', 's': 'b'}, {'k': 'int', 'n': '2'}], [{'k': 'str', 's': 'a'}, {'k': 'float', 'n': '1', 'r': '1.0'}]]},
+    {'k': 'list', 'xs': [{'k': 'int', 'n': '1'}]}, {'k': 'tuple', 'xs': [{'k': 'float', 'n': '1', 'r': '1.0'}]},
+]
+
+
 def make_scenario(seed, profile='general'):
+    P = PROFILES[profile]
     rnd = random.Random('%s:%s' % (profile, seed))
     cache = ['k']
+    qpaths = list(UNIVERSE)
+    targets = list(LEAVES)
+    if P.get('foreign'):
+        qpaths += FOREIGN
+    if P.get('long'):
+        targets = targets + LONGT
+        qpaths += [['g', 'h']]
     orc = {
         'seed': seed,
-        'qpaths': UNIVERSE,
-        'targets': LEAVES,
+        'qpaths': qpaths,
+        'targets': targets,
         'fnames': {'0': ['f0a', 'f0b'], '1': ['f1a', 'f1b'], '2': ['f2a']},
-        'maxstmts': rnd.choice([2, 3, 4, 5]),
+        'maxstmts': rnd.choice(P.get('maxstmts', [2, 3, 4, 5])),
         'nargs': 2,
+        'raise': P.get('raise', 10), 'nocreate': P.get('nocreate', 6), 'nonjson': P.get('nonjson', 2),
+        'p_probe': int(100 * P.get('p_probe', 0) / 4),
     }
+    if P.get('w_read'):
+        orc['kinds'] = ['read', 'read', 'read', 'is_file', 'list_dir', 'get_size']
+    universe = [p for p in qpaths]
+
+    def ext():
+        if P.get('ext_meta') and rnd.random() < 0.7:
+            p = rnd.choice(qpaths)
+            do = rnd.choice(['touch', 'rewrite_keep_meta', 'rewrite_keep_meta', 'write'])
+            st = {'op': 'ext', 'do': do, 'p': p}
+            if do != 'touch':
+                st['c'] = rnd.choice(CONTENTS + ['c7'])
+            if do == 'write':
+                st['sz'] = rnd.choice(SIZES)
+            return st
+        if P.get('foreign') and rnd.random() < 0.5:
+            return {'op': 'ext', 'do': 'write', 'p': rnd.choice(FOREIGN + [['kz']]),
+                    'c': rnd.choice(['c8', 'c9']), 'sz': rnd.choice(SIZES)}
+        return rand_ext(rnd, orc, cache)
+
+    def root_of(n):
+        root = rand_root(rnd, orc, n, crash_pct=0)
+        if P.get('p_uncaught') and rnd.random() < P['p_uncaught']:
+            for st in root:
+                if st['s'] in ('bf', 'sb'):
+                    st['catch'] = False
+        if P.get('p_probe'):
+            out = []
+            for st in root:
+                out.append(st)
+                if st['s'] != 'return' and rnd.random() < P['p_probe']:
+                    out.insert(len(out) - 0, {'s': 'probe'})
+            # keep the terminating return last
+            root = [st for st in out if st['s'] != 'return'] + [{'s': 'return'}]
+        return root
+
     steps = []
     for _ in range(rnd.randrange(0, 4)):
-        steps.append(rand_ext(rnd, orc, cache))
-    nbuilds = rnd.choice([2, 3, 3, 4])
-    base_root = rand_root(rnd, orc, rnd.randrange(1, 5), crash_pct=0)
+        steps.append(ext())
+    nbuilds = rnd.choice(P.get('builds', [2, 3, 3, 4]))
+    base_root = root_of(rnd.randrange(1, 5))
     vers = {}
     for b in range(nbuilds):
-        r = rnd.random()
-        if r < 0.5:
-            root = list(base_root)
-        elif r < 0.8:
-            root = rand_root(rnd, orc, rnd.randrange(1, 5), crash_pct=0)
-            base_root = root
+        if rnd.random() < P.get('p_same_root', 0.7):
+            root = [dict(st) for st in base_root]
         else:
-            root = list(base_root)
-        if rnd.random() < 0.2:       # crash somewhere in the root function
-            k = rnd.randrange(len(root))
-            root = root[:k] + [{'s': 'raise'}]
+            root = root_of(rnd.randrange(1, 5))
+            base_root = root
+        if rnd.random() < P.get('p_crash', 0.2):       # crash somewhere in the root function
+            body = [st for st in root if st['s'] != 'return']
+            k = rnd.randrange(len(body) + 1)
+            root = body[:k] + [{'s': 'raise'}]
         vers = dict(vers)
-        if rnd.random() < 0.25:
+        if rnd.random() < P.get('p_vers', 0.25):
             f = rnd.choice(['f0a', 'f0b', 'f1a', 'f1b', 'f2a'])
-            vers[f] = rnd.choice([{'k': 'int', 'n': '1'}, {'k': 'float', 'n': '1', 'r': '1.0'},
-                                  {'k': 'int', 'n': '2'}, {'k': 'bool', 'b': True}, {'k': 'none'}])
+            if f in vers and rnd.random() < 0.2:
+                del vers[f]
+            else:
+                vers[f] = rnd.choice(VERSION_TERMS)
         steps.append({'op': 'build', 'name': 'B', 'vers': vers, 'root': root})
-        if rnd.random() < 0.15:
+        if rnd.random() < P.get('p_clean', 0.15):
             steps.append({'op': 'clean', 'name': 'B'})
-        for _ in range(rnd.choice([0, 0, 1, 1, 2, 3])):
-            steps.append(rand_ext(rnd, orc, cache))
-    if rnd.random() < 0.3:
+            if rnd.random() < P.get('p_double_clean', 0.1):
+                steps.append({'op': 'clean', 'name': 'B'})
+        for _ in range(rnd.choice(P.get('ext', [0, 0, 1, 1, 2, 3]))):
+            steps.append(ext())
+    if rnd.random() < max(0.3, P.get('p_clean', 0)):
         steps.append({'op': 'clean', 'name': 'B'})
-    return {'id': '%s-%d' % (profile, seed), 'cache': cache, 'universe': UNIVERSE, 'oracle': orc,
+        if rnd.random() < P.get('p_double_clean', 0.1):
+            steps.append({'op': 'clean', 'name': 'B'})
+    return {'id': '%s-%d' % (profile, seed), 'cache': cache, 'universe': universe, 'oracle': orc,
             'steps': steps}
